@@ -35,38 +35,17 @@ fn devs_for(regfile: usize, stack_hi: u64, text: u64) -> Vec<(usize, u64)> {
     d
 }
 
-fn run_case(c: &Case) -> (Value, Vec<(String, String)>, bool) {
-    let case = json!({"n": c.n, "blamed": c.blamed, "ctx": c.ctx, "regfile": c.regfile});
-    let mut b = build(&Shape::threads(c.n));
-    let env = env_of(&mut b);
-    let blamed_tid: i32 = match c.blamed {
-        0 => b.p.pid,
-        1 => b.p.threads.first().map(|t| t.tid).unwrap_or(b.p.pid),
-        _ => std::process::id() as i32,
-    };
-    let listed_expected = c.blamed == 0 || (c.blamed == 1);
-    let devs = devs_for(c.regfile, env.main_stack.1, env.text.0);
-    let mut o = DumpOpts { blamed: Some(blamed_tid), ..Default::default() };
-    let (signo, code, addr) = (11u32, 0x12345i32, 0x7eee_dead_b000u64);
-    if c.ctx {
-        o.crash = Some(CrashSpec { tid: blamed_tid, signo, code, addr, devs: devs.clone() });
-    }
-    let mut fails = Vec::new();
-    let bytes = match dump_mem(b.p.pid, &o) {
-        DumpResult::Ok(x) => x,
-        DumpResult::Err(e) => {
-            // a dump may fail (C02 allows Err); nothing to attribute then
-            return (json!({"case": case, "dump_error": e}), fails, false);
-        }
-        DumpResult::Panic(p) => {
-            fails.push(("panic".into(), p));
-            return (case, fails, false);
-        }
-    };
+
+/// Judge one dump against what the caller supplied.
+pub fn judge(bytes: &[u8], blamed_tid: i32, listed_expected: bool, ctx: Option<(u32, i32, u64, Vec<(usize, u64)>)>) -> Vec<(String, String)> {
+    let mut fails: Vec<(String, String)> = Vec::new();
+    let c_ctx = ctx.is_some();
+    let (signo, code, addr, devs) = ctx.unwrap_or((0, 0, 0, vec![]));
+    let bytes = bytes.to_vec();
     let d = Dump::parse(&bytes);
     let Some(x) = d.exception.clone() else {
         fails.push(("no-exception-stream".into(), "the dump has no exception stream".into()));
-        return (case, fails, true);
+        return fails;
     };
     if x.thread_id != blamed_tid as u32 {
         fails.push(("wrong-blamed-thread".into(), format!("exception record names thread {} but {} was blamed", x.thread_id, blamed_tid)));
@@ -75,7 +54,7 @@ fn run_case(c: &Case) -> (Value, Vec<(String, String)>, bool) {
     if listed_expected && entry.is_none() {
         fails.push(("blamed-thread-not-listed".into(), format!("blamed thread {blamed_tid} is not in the thread list")));
     }
-    if c.ctx {
+    if c_ctx {
         if x.code != signo {
             fails.push(("signal-number-lost".into(), format!("exception code {:#x} != supplied signal number {signo}", x.code)));
         }
@@ -127,7 +106,76 @@ fn run_case(c: &Case) -> (Value, Vec<(String, String)>, bool) {
             }
         }
     }
+    fails
+}
+
+fn run_case(c: &Case) -> (Value, Vec<(String, String)>, bool) {
+    let case = json!({"n": c.n, "blamed": c.blamed, "ctx": c.ctx, "regfile": c.regfile});
+    let mut b = build(&Shape::threads(c.n));
+    let env = env_of(&mut b);
+    let blamed_tid: i32 = match c.blamed {
+        0 => b.p.pid,
+        1 => b.p.threads.first().map(|t| t.tid).unwrap_or(b.p.pid),
+        _ => std::process::id() as i32,
+    };
+    let listed_expected = c.blamed == 0 || (c.blamed == 1);
+    let devs = devs_for(c.regfile, env.main_stack.1, env.text.0);
+    let mut o = DumpOpts { blamed: Some(blamed_tid), ..Default::default() };
+    let (signo, code, addr) = (11u32, 0x12345i32, 0x7eee_dead_b000u64);
+    if c.ctx {
+        o.crash = Some(CrashSpec { tid: blamed_tid, signo, code, addr, devs: devs.clone() });
+    }
+    let mut fails = Vec::new();
+    let bytes = match dump_mem(b.p.pid, &o) {
+        DumpResult::Ok(x) => x,
+        DumpResult::Err(e) => {
+            // a dump may fail (C02 allows Err); nothing to attribute then
+            return (json!({"case": case, "dump_error": e}), fails, false);
+        }
+        DumpResult::Panic(p) => {
+            fails.push(("panic".into(), p));
+            return (case, fails, false);
+        }
+    };
+    fails.extend(judge(&bytes, blamed_tid, listed_expected, if c.ctx { Some((signo, code, addr, devs.clone())) } else { None }));
     (case, fails, true)
+}
+
+/// One writer, two requests with DIFFERENT crash contexts (set_crash_context between them): the second
+/// dump must carry the second context everywhere.
+fn run_reconfigured(blamed_other: bool) -> (Value, Vec<(String, String)>) {
+    let case = json!({"reconfigured": true, "blamed_other": blamed_other});
+    let mut b = build(&Shape::threads(3));
+    let env = env_of(&mut b);
+    let blamed_tid = if blamed_other { b.p.threads[0].tid } else { b.p.pid };
+    let devs_a = devs_for(1, env.main_stack.1, env.text.0);
+    let devs_b = devs_for(7, env.main_stack.1, env.text.0);
+    let o = DumpOpts { blamed: Some(blamed_tid), crash: Some(CrashSpec { tid: blamed_tid, signo: 11, code: 1, addr: 0x1000, devs: devs_a }), ..Default::default() };
+    let mut w = crate::dump::make_writer(b.p.pid, &o);
+    let mut fails = Vec::new();
+    let mut c1 = std::io::Cursor::new(Vec::new());
+    if !matches!(crate::dump::dump_with(&mut w, &mut c1), DumpResult::Ok(_)) {
+        return (case, fails);
+    }
+    b.p.quiesce();
+    // second request: another signal, another register file
+    let mut cc = crate::checks::c05::make_context(&vals_for(&devs_b));
+    cc.inner.siginfo.ssi_signo = 7;
+    cc.inner.siginfo.ssi_code = 0x777;
+    cc.inner.siginfo.ssi_addr = 0x7000_0000_beef;
+    cc.inner.pid = b.p.pid;
+    cc.inner.tid = blamed_tid;
+    w.set_crash_context(cc);
+    let mut c2 = std::io::Cursor::new(Vec::new());
+    match crate::dump::dump_with(&mut w, &mut c2) {
+        DumpResult::Ok(bytes) => {
+            for (k, m) in judge(&bytes, blamed_tid, true, Some((7, 0x777, 0x7000_0000_beef, devs_b))) {
+                fails.push((format!("second-request/{k}"), format!("second dump after set_crash_context(): {m}")));
+            }
+        }
+        other => fails.push(("second-request/failed".into(), format!("{other:?}"))),
+    }
+    (case, fails)
 }
 
 pub fn run(ctx: &Ctx, rep: &mut Report) {
@@ -160,10 +208,26 @@ pub fn run(ctx: &Ctx, rep: &mut Report) {
             rep.violation(&format!("dump/{k}"), &m, case.clone());
         }
     }
-    rep.set("end_to_end", json!({"cases": cases.len(), "dumps_succeeded": ok}));
+    for blamed_other in [false, true] {
+        let (case, fails) = run_reconfigured(blamed_other);
+        rep.evaluations += 1;
+        rep.nontrivial += 1;
+        for (k, m) in fails {
+            rep.violation(&format!("dump/{k}"), &m, case.clone());
+        }
+    }
+    rep.set("end_to_end", json!({"cases": cases.len(), "dumps_succeeded": ok, "reconfigured_writer_histories": 2}));
 }
 
 pub fn replay(case: &Value, rep: &mut Report) {
+    if case.get("reconfigured").is_some() {
+        let (c, fails) = run_reconfigured(case["blamed_other"].as_bool().unwrap_or(false));
+        rep.evaluations += 1;
+        for (k, m) in fails {
+            rep.violation(&format!("dump/{k}"), &m, c.clone());
+        }
+        return;
+    }
     let g = |k: &str| case.get(k).and_then(|v| v.as_u64()).unwrap_or(0) as usize;
     let c = Case { n: g("n").max(1), blamed: g("blamed"), ctx: case.get("ctx").and_then(|v| v.as_bool()).unwrap_or(false), regfile: g("regfile") };
     let (case, fails, _) = run_case(&c);
